@@ -2,7 +2,6 @@ package grpc
 
 import (
 	golangGrpc "google.golang.org/grpc"
-	"google.golang.org/grpc/status"
 )
 
 type ssRecvWrapper struct {
@@ -17,7 +16,7 @@ func (s *ssRecvWrapper) RecvMsg(m interface{}) error {
 	token, ok := s.cfg.recvLimiter.Acquire(ctx)
 	if !ok {
 		_, errCode, err := s.cfg.recvLimitExceededResponseClassifier(ctx, s.info.FullMethod, m, s.cfg.recvLimiter)
-		return status.Error(errCode, err.Error())
+		return limitExceededStatus(errCode, err)
 	}
 	err := s.ServerStream.RecvMsg(m)
 	if err != nil {
@@ -42,7 +41,7 @@ func (s *ssRecvWrapper) SendMsg(m interface{}) error {
 	token, ok := s.cfg.sendLimiter.Acquire(ctx)
 	if !ok {
 		_, errCode, err := s.cfg.sendLimitExceededResponseClassifier(ctx, s.info.FullMethod, m, s.cfg.sendLimiter)
-		return status.Error(errCode, err.Error())
+		return limitExceededStatus(errCode, err)
 	}
 	err := s.ServerStream.SendMsg(m)
 	if err != nil {
